@@ -2,6 +2,7 @@ package roundtrace
 
 import (
 	"math/rand"
+	"os"
 
 	"verif/harness/rec"
 
@@ -25,6 +26,9 @@ func pick(r *rand.Rand, cs []choice) func() {
 		return nil
 	}
 	n := r.Intn(tot)
+	if os.Getenv("VERIF_DEBUG") != "" {
+		dbg("pick %d of %d", n, tot)
+	}
 	for _, c := range cs {
 		if n < c.w {
 			return c.do
@@ -70,6 +74,10 @@ func (d *drv) runTrace(id int, r *rand.Rand) {
 	t := d.startTrace(id, r)
 	mc := d.mc
 	mode := r.Intn(10) // 0-5 mostly cooperative, 6-7 lossy (timeouts), 8-9 adversarial
+	steps := d.a.Steps
+	if d.need["progress"] > 0 {
+		mode, steps = r.Intn(3), steps+steps/2
+	}
 	prob := func(p int) bool { return r.Intn(100) < p }
 	after := func() {
 		// the message worker usually dispatches at once; sometimes a message waits (reordering / lateness)
@@ -77,7 +85,7 @@ func (d *drv) runTrace(id int, r *rand.Rand) {
 			d.dispatch(len(t.pend) - 1)
 		}
 	}
-	for step := 0; step < d.a.Steps; step++ {
+	for step := 0; step < steps; step++ {
 		cur := d.rel(mc.GetCurrentRound())
 		mr := d.nodeRound(cur)
 		if mr == nil {
@@ -92,6 +100,18 @@ func (d *drv) runTrace(id int, r *rand.Rand) {
 			if w > 0 {
 				cs = append(cs, choice{w, f})
 			}
+		}
+		// a kind of situation every run should contain: much more likely until the run has had it
+		addK := func(kind string, w int, f func()) {
+			if d.need[kind] > 0 {
+				w *= 12
+			}
+			add(w, func() {
+				if d.need[kind] > 0 {
+					d.need[kind]--
+				}
+				f()
+			})
 		}
 		if len(t.pend) > 0 {
 			add(30, func() { d.dispatch(r.Intn(len(t.pend))) })
@@ -144,7 +164,7 @@ func (d *drv) runTrace(id int, r *rand.Rand) {
 					f()
 					t.hist = append(t.hist, func() { d.sendShare(j, cur, toc, ps, "ok", true) })
 				})
-				add(5, func() { d.sendShare(j, cur, toc, ps, "bad", false) })
+				addK("badshare", 5, func() { d.sendShare(j, cur, toc, ps, "bad", false) })
 				add(4, func() { d.sendShare(j, cur, toc+1, ps, "ok", false) })
 				if toc > 0 {
 					add(4, func() { d.sendShare(j, cur, toc-1, ps, "ok", false) })
@@ -166,7 +186,17 @@ func (d *drv) runTrace(id int, r *rand.Rand) {
 					add(5, func() { d.propose(cur, s, 0, false) })
 				}
 			}
-			add(5+lossy+mode/2, func() { d.timeout(cur) })
+			w := 5 + lossy + mode/2
+			if d.need["restart"] > 0 && cur >= 2 {
+				w = 150 // the shares of this round do not arrive: timeouts until the round restarts
+			}
+			add(w, func() {
+				before := mr.GetTimeoutCount()
+				d.timeout(cur)
+				if x := d.nodeRound(cur); x != nil && x.GetTimeoutCount() > before && d.need["restart"] > 0 {
+					d.need["restart"]--
+				}
+			})
 		default:
 			seed := mr.GetRandomSeed()
 			ranks := d.ranksOf(seed)
@@ -238,14 +268,14 @@ func (d *drv) runTrace(id int, r *rand.Rand) {
 					add(8+mode, func() { d.sendTicket(j, other, true, false) })
 				}
 				add(3, func() { d.sendTicket(1+r.Intn(nMiners-1), best, true, true) })
-				add(6, func() { d.sendNotarization(1+r.Intn(nMiners-1), best, []int{1, 2, 3}, nil, false) })
+				addK("nz", 6, func() { d.sendNotarization(1+r.Intn(nMiners-1), best, []int{1, 2, 3}, nil, false) })
 				add(2, func() { d.sendNotarization(1+r.Intn(nMiners-1), other, []int{1, 2, 3}, nil, false) })
 				add(2, func() { d.sendNotarization(1+r.Intn(nMiners-1), best, []int{1, 2}, nil, false) })
 				add(2, func() { d.sendNotarization(1+r.Intn(nMiners-1), best, []int{1, 2, 3}, map[int]bool{2: true}, false) })
 				// the next round's generator is already proposing on top of a block of this round
-				add(3+mode/2, func() { d.proposeNext(other, false) })
+				addK("lag", 3+mode/2, func() { d.proposeNext(other, false) })
 				if forged {
-					add(3+mode/2, func() { d.proposeNext(other, true) })
+					addK("forged", 3+mode/2, func() { d.proposeNext(other, true) })
 				}
 			}
 			for j := 1; j < nMiners; j++ {
@@ -269,6 +299,13 @@ func (d *drv) runTrace(id int, r *rand.Rand) {
 				}
 			}
 			add(4+lossy+mode/2, func() { d.timeout(cur) })
+		}
+		if d.debug {
+			ws := []int{}
+			for _, c := range cs {
+				ws = append(ws, c.w)
+			}
+			dbg("step %d cur %d weights %v need %v", step, cur, ws, d.need)
 		}
 		f := pick(r, cs)
 		if f == nil {
